@@ -45,6 +45,8 @@ PROP = [  # (substring of the commit subject, property, what failed before the f
  ('save(force=True) could not replace', 'C16', 'MSM.save(path, force=True) raised on an existing model directory (os.remove on a directory)'),
  ('wrapped frame indices for narrow label dtypes', 'C10', 'find_cluster_centers with int8/uint8 assignments returned wrapped frame indices >= 128/256; list inputs mis-compared'),
  ('matrix product for numpy.matrix input', 'C08', 'reactive_fluxes / net_fluxes with numpy.matrix tprob silently returned a matrix product instead of the element-wise flux'),
+ ('assigns_to_counts inferred state count overflowed', 'C03', 'assigns_to_counts with the state count inferred raised ValueError for uint8/uint16/int8 data visiting the top state of the dtype'),
+ ('append replaced an array whose rows are all empty', 'C06', 'RaggedArray([[],[]]).append([[1]]) gave [[1]] instead of [[],[],[1]]'),
 ]
 log = subprocess.run(['git', '-C', '/repo', 'log', '--reverse', '--format=%h|%s'], capture_output=True, text=True).stdout.strip().split('\n')
 fixed = []
